@@ -14,6 +14,21 @@ From SCC Require Export Proof.SimFrag.
 Import ListNotations.
 Open Scope Z_scope.
 Open Scope list_scope.
+(* names that lived in this file before they moved to Proof/SimFrag.v (kept for qualified uses) *)
+Notation is_cf_binding := SimFrag.is_cf_binding (only parsing).
+Notation ctx_cf := SimFrag.ctx_cf (only parsing).
+Notation is_nil := SimFrag.is_nil (only parsing).
+Notation stmt_cf := SimFrag.stmt_cf (only parsing).
+Notation clauses_cf := SimFrag.clauses_cf (only parsing).
+Notation stmt_cf_create := SimFrag.stmt_cf_create (only parsing).
+Notation split_last0 := SimFrag.split_last0 (only parsing).
+Notation find_clause_pos := SimFrag.find_clause_pos (only parsing).
+Notation cls_sig_length := SimFrag.cls_sig_length (only parsing).
+Notation sig_match_join := SimFrag.sig_match_join (only parsing).
+Notation NoDup_app_head := SimFrag.NoDup_app_head (only parsing).
+Notation split_last1_inv := SimFrag.split_last1_inv (only parsing).
+Notation find_clause_total := SimFrag.find_clause_total (only parsing).
+Notation split_last1_app := SimFrag.split_last1_app (only parsing).
 
 (* ---------- the fragment: integers and closures without captured variables ---------- *)
 (* is_cf_binding, ctx_cf, stmt_cf, clauses_cf, stmt_cf_create: Proof/SimFrag.v *)
